@@ -102,7 +102,7 @@ fn extract_class(
     } else {
         None
     };
-    let mut body_name_stmts: HashMap<Core, (usize, Core)> = match body {
+    let mut body_name_stmts: HashMap<Core, ((usize, usize), Core)> = match body {
         Some(Core::Block { statements }) => statements,
         Some(other) => vec![other],
         None => vec![],
@@ -127,7 +127,7 @@ fn extract_class(
                 },
             ),
         };
-        (key, (pos, stmt.clone()))
+        (key, ((pos, i), stmt.clone()))
     })
     .collect();
 
@@ -144,12 +144,13 @@ fn extract_class(
         let pos = if let Some((pos, _)) = body_name_stmts.get(&init) {
             *pos // leave pos untouched
         } else {
-            body_name_stmts
+            let pos = body_name_stmts
                 .values()
                 .filter(|(_, stmt)| matches!(stmt, Core::VarDef { .. }))
-                .map(|(pos, _)| *pos + 1)
+                .map(|((pos, _), _)| *pos + 1)
                 .max()
-                .unwrap_or(0) // otherwise always first
+                .unwrap_or(0); // otherwise always first
+            (pos, 0)
         };
 
         body_name_stmts.insert(init, (pos, new_init));
